@@ -10,6 +10,11 @@
 //verif:replace@C16d math/rand.New = verifRandNew
 //verif:replace@C16d math/rand.NewSource = verifRandSource
 //verif:replace@C16d (*math/rand.Rand).Intn = verifIntn
+//verif:replace@C15e github.com/mimecast/dtail/internal/ssh.KeyFile = verifKeyFile
+//verif:replace@C15e github.com/mimecast/dtail/internal/ssh.Agent = verifAgent
+//verif:replace@C15e math/rand.New = verifRandNew
+//verif:replace@C15e math/rand.NewSource = verifRandSource
+//verif:replace@C15e (*math/rand.Rand).Intn = verifIntn
 //verif:replace@C18d golang.org/x/crypto/ssh.Dial = verifDial
 //verif:replace@C18d github.com/mimecast/dtail/internal/ssh.KeyFile = verifKeyFile
 //verif:replace@C18d github.com/mimecast/dtail/internal/ssh.Agent = verifAgent
